@@ -477,15 +477,28 @@ fn stream_spec(a: &Args, st: &mut Stream) {
             }
         }
     }
-    let mut ps: Vec<(f64, f64)> = vec![(1.0, 1.0), (30.0, 1000.0), (0.0, 1.0), (1.0, 0.0), (-1.0, 5.0), (5.0, -1.0)];
-    ps.truncate((a.n + 1).max(1));
-    while ps.len() < a.n + 1 {
-        ps.push((moderate(&mut rng), moderate(&mut rng)));
+    // constructors: (1, 1) first (the canonical witness), one ordinary pair, then EVERY sign combination of the two
+    // operands, {+, 0, -0, -} x {+, 0, -0, -} (magnitudes 50 and 100): "a non-positive speed or distance is rejected
+    // rather than turned into a time" must hold when both are negative too (their quotient is positive), and the
+    // same for a non-positive time in Speed::create; then random moderate magnitudes
+    let signs = |m: f64| [m, 0.0, -0.0, -m];
+    let mut ps: Vec<(f64, f64)> = vec![(1.0, 1.0), (30.0, 1000.0)];
+    for x in signs(50.0) {
+        for y in signs(100.0) {
+            ps.push((x, y));
+        }
     }
-    for p in ps.iter() {
-        for kind in ["create_time", "create_speed", "create_energy"] {
+    let mut pe: Vec<(f64, f64)> = vec![(1.0, 1.0), (30.0, 1000.0), (0.0, 1.0), (1.0, 0.0), (-1.0, 5.0), (5.0, -1.0), (-50.0, -100.0), (-0.0, -0.0)];
+    for _ in 0..a.n.saturating_sub(1) {
+        let p = (moderate(&mut rng), moderate(&mut rng));
+        ps.push(p);
+        pe.push(p);
+    }
+    for kind in ["create_time", "create_speed", "create_energy"] {
+        for p in (if kind == "create_energy" { &pe } else { &ps }).iter() {
             for (x, y, z) in triples(kind) {
-                // energy rates may be negative (regenerative braking): flip the sign of the pair's first component there
+                let sign = |v: f64| if v == 0.0 { if v.is_sign_negative() { "-0" } else { "0" } } else if v < 0.0 { "-" } else { "+" };
+                st.count(&format!("{}:signs({},{})", kind, sign(p.0), sign(p.1)));
                 spec_builder(st, kind, &x, &y, &z, *p);
             }
         }
